@@ -232,7 +232,12 @@ def plan(tier, seed):
     else:
         near = [c for c in allc
                 if sum(1 for a, b in zip(c[:7], DEFAULT[:7]) if a != b) <= 2]
-        chosen = near + rng.sample(allc, 2000)
+        # the upgrade-request family on live sessions (up to 3 coordinates
+        # away from the defaults) is small and is always included
+        fam = [c for c in allc if HDRS[c[4]] == 'both' and
+               SIDK[c[3]] in ('live', 'upgraded', 'mid') and
+               sum(1 for a, b in zip(c[:7], DEFAULT[:7]) if a != b) <= 3]
+        chosen = list(dict.fromkeys(near + fam)) + rng.sample(allc, 2000)
     rng.shuffle(chosen)
     n = 16
     return [{'cells': chosen[i::n], 'all': tier == 'thorough'}
